@@ -70,3 +70,36 @@ V_ENSURES(V_IMP(g_N != NULL && g_child != NULL, g_child->parent == V_OLD(g_Nd->p
 V_ENSURES(V_IMP(g_N != NULL && g_t->dtor != NULL, g_dtor_calls == V_OLD(g_dtor_calls) + 1 && g_dtor_arg == V_OLD(g_Nd->userptr)))  /*@C11.dtor-once-on-removed-element*/
 V_ENSURES(V_IMP(g_t->dtor == NULL, g_dtor_calls == V_OLD(g_dtor_calls)))
 ;
+
+#ifdef V_TRAV_UNIT
+/* ---- traversals: the induction step, unbounded --------------------------------------------------------------------------------------------
+ * Window: a node g_W with children g_WL / g_WR (either may be NULL) whose subtrees hold g_szL / g_szR elements.  The recursive calls on the children are checked
+ * against this same contract (goto-instrument --enforce-contract-rec), the function body is verified for node == g_W and node == NULL: if the traversal visits
+ * every element of each subtree exactly once, it visits every element of the tree rooted at g_W exactly once, and g_W's own element at the position its order
+ * prescribes.  A traversal that is not this structural recursion (an explicit stack, a loop) has no such proof: it is reported as undecided, not accepted. */
+static inline size_t v_sz(const bst_node *n) { return n == NULL ? 0 : n == g_W ? g_szL + 1 + g_szR : n == g_WL ? g_szL : n == g_WR ? g_szR : 0; }
+static inline bool v_trav_window_ok(void) {
+    return g_szL < ((size_t)1 << 60) && g_szR < ((size_t)1 << 60) && (g_WL == NULL) == (g_szL == 0) && (g_WR == NULL) == (g_szR == 0)
+        && (g_W == NULL || (V_RW_OK(g_W, sizeof(bst_node)) && g_W->left == g_WL && g_W->right == g_WR && g_W->userptr == g_Wup && g_WL != g_W && g_WR != g_W && (g_WL == NULL || g_WL != g_WR)));
+}
+/* the user callback: keeps going (returns 0); records at which position the window node's own element is handed over */
+V_CONTRACT
+int v_trav_cb(void *up, void *data)
+V_REQUIRES(up == (void *)&g_cbcalls)
+V_ASSIGNS(g_cbcalls, g_cbposW)
+V_ENSURES(V_RET == 0 && g_cbcalls == V_OLD(g_cbcalls) + 1 && g_cbposW == (data == g_Wup ? V_OLD(g_cbcalls) : V_OLD(g_cbposW)))
+;
+#define V_TRAV_CONTRACT(fn, pos, TAG) \
+V_CONTRACT \
+static inline int fn(bst_node *node, m_bst_cb cb, void *userptr) \
+V_REQUIRES(v_trav_window_ok() && (node == NULL || node == g_W || node == g_WL || node == g_WR) && cb == v_trav_cb && userptr == (void *)&g_cbcalls && g_cbcalls < ((size_t)1 << 61)) \
+V_ASSIGNS(g_cbcalls, g_cbposW) \
+/* every element of the (sub)tree is handed to the callback exactly once */ \
+V_ENSURES(V_RET == 0 && g_cbcalls == V_OLD(g_cbcalls) + v_sz(node))                                                   /*@C11.traversal-visits-every-element-exactly-once*/ \
+/* the node's own element comes at the position its order prescribes relative to its two subtrees; the subtrees do not contain it */ \
+V_ENSURES(V_IMP(node != NULL && node == g_W, g_cbposW == V_OLD(g_cbcalls) + (pos)) && V_IMP(node != g_W, g_cbposW == V_OLD(g_cbposW)))   TAG \
+;
+V_TRAV_CONTRACT(traverse_inorder, g_szL, /*@C11.in-order-is-left-subtree-node-right-subtree*/)
+V_TRAV_CONTRACT(traverse_preorder, 0, /*@C11.pre-order-is-node-before-its-subtrees*/)
+V_TRAV_CONTRACT(traverse_postorder, g_szL + g_szR, /*@C11.post-order-is-node-after-its-subtrees*/)
+#endif
